@@ -1,6 +1,7 @@
 /- C09 — every policy is a coherent probability distribution over actions (umbrella module).
    a: sums, row validity, dense sampler   b: greedy   c: softmax, epsilon, LRP   d: WoLF, projection, PGA-APP
-   e: Thompson kernel   f: swap-and-pop lists, SuccessiveRejects, ESRL   g: TopTwo / T3C kernels -/
+   e: Thompson kernel   f: swap-and-pop lists, SuccessiveRejects, ESRL   g: TopTwo / T3C kernels
+   h: greedy on clustered rows (ties inside the tolerances, large magnitudes), maximum-first repair -/
 import AITB.Props.C09a
 import AITB.Props.C09b
 import AITB.Props.C09c
@@ -8,3 +9,4 @@ import AITB.Props.C09d
 import AITB.Props.C09e
 import AITB.Props.C09f
 import AITB.Props.C09g
+import AITB.Props.C09h
